@@ -169,18 +169,52 @@ func setNums(xs []string) []int {
 	}
 	return out
 }
-func memberName(m int) string { return fmt.Sprintf("10.0.0.%d", m) }
-func memberNames(xs []int) []string {
+// IP set s has type s%3 (IP, IP+port, net); its members are written accordingly
+func setType(s int) proto.IPSetUpdate_IPSetType {
+	switch s % 3 {
+	case 1:
+		return proto.IPSetUpdate_IP_AND_PORT
+	case 2:
+		return proto.IPSetUpdate_NET
+	}
+	return proto.IPSetUpdate_IP
+}
+func memberName(s, m int) string {
+	switch s % 3 {
+	case 1:
+		return fmt.Sprintf("10.0.0.%d,TCP:80", m) // canonical form is lower case
+	case 2:
+		return fmt.Sprintf("10.0.%d.0/24", m)
+	}
+	return fmt.Sprintf("10.0.0.%d", m)
+}
+func memberNames(s int, xs []int) []string {
 	out := make([]string, len(xs))
 	for i, x := range xs {
-		out[i] = memberName(x)
+		out[i] = memberName(s, x)
 	}
 	return out
 }
-func memberNums(xs []string) []int {
+func memberNum(s int, x string) int {
+	switch s % 3 {
+	case 1:
+		x = strings.ToLower(x)
+		if !strings.HasSuffix(x, ",tcp:80") {
+			return 9006
+		}
+		return num(strings.TrimSuffix(x, ",tcp:80"), "10.0.0.")
+	case 2:
+		if !strings.HasSuffix(x, ".0/24") {
+			return 9007
+		}
+		return num(strings.TrimSuffix(x, ".0/24"), "10.0.")
+	}
+	return num(x, "10.0.0.")
+}
+func memberNums(s int, xs []string) []int {
 	out := make([]int, len(xs))
 	for i, x := range xs {
-		out[i] = num(x, "10.0.0.")
+		out[i] = memberNum(s, x)
 	}
 	return out
 }
@@ -312,9 +346,9 @@ func (o *opT) update() any {
 	case "OProfRemove":
 		return &proto.ActiveProfileRemove{Id: &proto.ProfileID{Name: fmt.Sprintf("prof%d", o.a)}}
 	case "OIPSetUpdate":
-		return &proto.IPSetUpdate{Id: setName(o.a), Type: proto.IPSetUpdate_IP, Members: memberNames(o.l1)}
+		return &proto.IPSetUpdate{Id: setName(o.a), Type: setType(o.a), Members: memberNames(o.a, o.l1)}
 	case "OIPSetDelta":
-		return &proto.IPSetDeltaUpdate{Id: setName(o.a), AddedMembers: memberNames(o.l1), RemovedMembers: memberNames(o.l2)}
+		return &proto.IPSetDeltaUpdate{Id: setName(o.a), AddedMembers: memberNames(o.a, o.l1), RemovedMembers: memberNames(o.a, o.l2)}
 	case "OIPSetRemove":
 		return &proto.IPSetRemove{Id: setName(o.a)}
 	case "OSAUpdate":
@@ -352,14 +386,16 @@ func msgCoq(m *proto.ToDataplane) string {
 	case *proto.ToDataplane_IpsetUpdate:
 		u := pl.IpsetUpdate
 		id := num(u.GetId(), "s")
-		if u.GetType() != proto.IPSetUpdate_IP {
+		ms := sortedSet(memberNums(id, u.GetMembers()))
+		if u.GetType() != setType(id) {
 			id = 9005
 		}
 		// members are a set: the order in which the Processor lists them is a Go map order
-		return fmt.Sprintf("MIPSetUpdate %d %s", id, nats(sortedSet(memberNums(u.GetMembers()))))
+		return fmt.Sprintf("MIPSetUpdate %d %s", id, nats(ms))
 	case *proto.ToDataplane_IpsetDeltaUpdate:
 		u := pl.IpsetDeltaUpdate
-		return fmt.Sprintf("MIPSetDelta %d %s %s", num(u.GetId(), "s"), nats(memberNums(u.GetAddedMembers())), nats(memberNums(u.GetRemovedMembers())))
+		id := num(u.GetId(), "s")
+		return fmt.Sprintf("MIPSetDelta %d %s %s", id, nats(memberNums(id, u.GetAddedMembers())), nats(memberNums(id, u.GetRemovedMembers())))
 	case *proto.ToDataplane_IpsetRemove:
 		return fmt.Sprintf("MIPSetRemove %d", num(pl.IpsetRemove.GetId(), "s"))
 	case *proto.ToDataplane_ServiceAccountUpdate:
